@@ -116,6 +116,15 @@ func RunWire(reg Registry, rec *Recorder, g Group) {
 		return []reflect.Value{reflect.ValueOf(resp), errV}
 	})
 	client := newClient.Call([]reflect.Value{reflect.ValueOf("http://example.test" + g.Base), doer})[0]
+	if g.Local {
+		// the pairing the generated package itself offers: API.LocalClient() (no recording transport in between)
+		m := reflect.ValueOf(api).MethodByName("LocalClient")
+		if !m.IsValid() || m.Type().NumIn() != 0 || m.Type().NumOut() != 1 {
+			rec.Emit(Event{"ev": "DriverError", "err": "no API.LocalClient()"})
+			return
+		}
+		client = m.Call(nil)[0]
+	}
 	_ = clientT
 	for _, wc := range g.Wire {
 		runWireCase(reg, rec, ops, client, cur, wc)
